@@ -1,8 +1,10 @@
 (* C13 — Values survive their stored text and JSON forms.  Statements only; proofs are in proofs/.
    Models: model/NumText.v (numbers: XNumber.Render = decimal.String, ToXNumber on text, the "=" operator),
-   model/Civil.v + model/DateText.v (datetimes, dates, times: Render, Format(env), ToXDateTime/ToXDate/ToXTime). *)
+   model/Civil.v + model/DateText.v (datetimes, dates, times: Render, Format(env), ToXDateTime/ToXDate/ToXTime),
+   model/JsonText.v (parse_json / json on JSON trees). *)
 From Coq Require Import ZArith NArith List Bool.
-From Verif Require Import lib.Dec model.NumText model.Civil model.DateText proofs.NumTextProofs proofs.CivilProofs proofs.DateTextProofs.
+From Verif Require Import lib.Dec lib.Json model.NumText model.Civil model.DateText model.JsonText.
+From Verif Require Import proofs.NumTextProofs proofs.CivilProofs proofs.DateTextProofs proofs.JsonTextProofs.
 Import ListNotations.
 
 (* Every number renders to text that converts back to the same number.  For ALL decimals mant * 10^dexp of the
@@ -140,3 +142,40 @@ Proof.
                                         (fun Hm => format_time_roundtrip e h mi s ns Hm Vc)).
 Qed.
 Print Assumptions c13_time_roundtrip.
+
+(* ================================================================================================ *)
+(* JSON.  Documents are trees (lib/Json.v: members in document order, duplicates kept); [jequiv] is JSON equivalence
+   written from the meaning of documents: numerically equal numbers, arrays element by element, objects compared
+   key by key on the LAST member of each key, in any order (proofs/JsonTextProofs.v). *)
+
+(* partial: json(parse_json(doc)) succeeds and is JSON-equivalent to doc for every document - any nesting, any
+   strings, duplicate and case-variant keys, members named __default__ - whose numbers have a decimal exponent in
+   -1000..1000 and whose strings and keys have no half surrogate pair (missing for the full statement: exactly
+   those two kinds of content, see c13_json_roundtrip_refuted and the error-branch theorem below) *)
+Theorem c13_json_roundtrip_partial : forall j : json, good j = true ->
+  exists j', json_roundtrip j = Some j' /\ jequiv j' j.
+Proof. exact json_roundtrip_equiv. Qed.
+Print Assumptions c13_json_roundtrip_partial.
+
+(* refuted for all documents: [1e1001] is written back as [null]; {"k":"\ud800x","b":1} as {"b":1}
+   (KNOWN_FINDINGS: json-roundtrip:number-exponent-beyond-1000, json-roundtrip:lone-surrogate-escape) *)
+Theorem c13_json_roundtrip_refuted :
+  (json_roundtrip (JArr [JNum 1 1001]) = Some (JArr [JNull]) /\ ~ jequiv (JArr [JNull]) (JArr [JNum 1 1001]))
+  /\ (json_roundtrip (JObj [([107%N], JStr [55296%N; 120%N]); ([98%N], JNum 1 0)]) = Some (JObj [([98%N], JNum 1 0)])
+      /\ ~ jequiv (JObj [([98%N], JNum 1 0)]) (JObj [([107%N], JStr [55296%N; 120%N]); ([98%N], JNum 1 0)])).
+Proof. exact json_roundtrip_witnesses. Qed.
+Print Assumptions c13_json_roundtrip_refuted.
+
+(* the error branch, explicitly: such a number is an error value - json() fails on it at top level, writes null
+   for it in an array and omits the member in an object *)
+Theorem c13_json_number_out_of_range : forall m e : Z, exp_ok e = false ->
+  json_roundtrip (JNum m e) = None
+  /\ json_roundtrip (JArr [JNum m e]) = Some (JArr [JNull])
+  /\ json_roundtrip (JObj [([97%N], JNum m e)]) = Some (JObj []).
+Proof. exact json_roundtrip_bad_number. Qed.
+Print Assumptions c13_json_number_out_of_range.
+
+(* JSON equivalence is reflexive (and, by the Example in proofs/, not the full relation) *)
+Theorem c13_jequiv_refl : forall j : json, jequiv j j.
+Proof. exact jequiv_refl. Qed.
+Print Assumptions c13_jequiv_refl.
